@@ -149,15 +149,6 @@ def reg(row: Row):
     return row
 
 
-def _only_valueerror(pattern=None):
-    def f(e, o):
-        if isinstance(e, ValueError) and (pattern is None or pattern in str(e)):
-            return f"documented ValueError: {str(e)[:50]}"
-        return None
-
-    return f
-
-
 # ------------------------------------------------------------------------------------------ simple passes
 
 reg(Row("align_left", ("align_left",), lambda c, o: cirq.align_left(c, context=ctx(o)), unitary=U(), records=M()))
